@@ -54,6 +54,35 @@ chk("C19", "exploration",
     "The string-parser part is plain seeded generation arriving through simulated peers; bounded real-time budget is used only where steps cannot be counted.",
     "deterministic simulation with watched worker processes: hostile input/fault workload, panic/crash/hang oracles", "5 C19")
 
+chk("C08", "exploration",
+    "Generated worlds (remote packages with module locations, registry packages and versions, local/remote/registry dependency edges incl. cycles, diamonds, self-references) are built by the real Builder from Add calls issued by 1-3 scheduled client tasks against simulated fetcher/registry/finder peers; after an error-free build every pair of an independently computed reference closure must be found inside the root, exist iff fetched, hold exactly the fetched (rule-filtered) content, and registry lookups/metadata must match what the peers supplied.",
+    "World addresses are canonical by construction (asserted at run time). Finder stubs read their declarations from the fetched files. Directory existence is only demanded where no ignore rule touches the path.",
+    "deterministic simulation: multi-party build against simulated peers under seeded schedules, closure/lookup oracle vs reference model", "5 C08")
+chk("C09", "exploration",
+    "After each successful simulated build the generated post-operations 'reopen' (restart with only the directory surviving; also a relative spelling from another cwd) and 'ship' (WriteArchive and ExtractArchive as two scheduled tasks over a bounded SimPipe) run; the full accessor fingerprint and the directory trees must equal those of the bundle returned by Close.",
+    "Same platform on both sides; mtimes compared after rounding to the second as the archive format does.",
+    "deterministic simulation: restart and streamed hand-over (two tasks over a simulated pipe) as generated operations, fingerprint/tree equality", "5 C09")
+chk("C10", "exploration",
+    "The simulated fetcher delivers hostile trees (escaping/absolute/dangling/chained links, links naming the manifest, a sibling, the temporary directory, links through rule-excluded directories, fifos); on success every package directory must contain only files, directories and links resolving physically inside it, with no .tmp-* left; on every outcome - also under the C12 peer-fault sweep and with concurrent client tasks - a total snapshot must show nothing outside the target changed.",
+    "The model predicts 'must be refused' from the rule-filtered tree; where a link leads through a directory the rules may remove, no prediction is made.",
+    "deterministic simulation: hostile peer + fault x schedule search, physical link-resolution and total-snapshot invariants", "5 C10")
+chk("C13", "exploration",
+    "One world's Add set is executed 2-5 times inside one scenario: permuted Add order, permuted dependency/version-list report order, 1-3 client tasks interleaved at every Lock/Unlock (mutex hook) and peer call by the schedule tape, and identical re-runs; manifest bytes, checksum, listing and lookup table must be identical and packages share a directory iff their path->content maps are equal.",
+    "The cooperative scheduler cuts only at yield points; races inside a critical section are out of reach. Map-order sensitivity is probed by identical re-runs (probabilistic).",
+    "deterministic simulation: seeded scheduler over concurrent Add tasks via mutex hook, permutation of histories, output-equality invariant", "5 C13")
+chk("C14", "exploration",
+    "Over the peers' call log and the tracer's history of each fault-free simulated build: one fetch per distinct package of the reference closure, one version-list and one source-address request per registry package/selected version, one analysis per (source, finder) pair, strict start/success|failure bracketing, 'already' only after success, and a step bound computed from the model; the index-decoded 'small' family walks <=3 packages x <=2 locations x edge subsets in order.",
+    "Analyses are keyed by (package directory, sub-path, finder); coalesced twins share a key.",
+    "deterministic simulation: exactly-once and bounded-steps checks over recorded peer-call and trace histories, scheduler deadlock detection", "5 C14")
+chk("C17", "exploration",
+    "Builds with several registry requests against the same package (first vs cached path), permuted version lists and generated constraints; the versions held by the bundle and asked of the registry client must equal the brute-force maximum of offered-and-allowed, final sources use exactly their version, empty intersections produce an error, deprecations are the registry's.",
+    "go-versions' set membership and ordering are trusted.",
+    "deterministic simulation: multi-request histories against a simulated registry, brute-force selection oracle", "5 C17")
+chk("C18", "exploration",
+    "Stored-state faults on the manifest of finished bundles (truncation, byte flips, field-wise hostile rewrites) and synthetic hostile manifests are followed by re-opening: an opened bundle must answer every lookup inside its root and must have refused directory names with a separator, '.' or '..'; on every built bundle all paths under package directories translate to an address and back, outside paths are rejected.",
+    "Which alias is returned for coalesced packages is not checked. The corruption grammar is seeded generation; the simulated part is 'durable state altered between Close and re-open'.",
+    "deterministic simulation: stored-state corruption followed by restart, containment and round-trip lookup invariants", "5 C18")
+
 def main():
     here = os.path.dirname(os.path.dirname(os.path.abspath(__file__)))
     hooks = []
